@@ -3,7 +3,7 @@
    name/op/value with the value already unquoted by parser.Str.Unquote) becomes the query that
    selects fingerprints from profiles_series_gin.  Executable definitions only. *)
 From Coq Require Import List ZArith NArith String Ascii Bool.
-From Qryn Require Import lib.Strs lib.CivilDate model.Sql model.SqlRender model.Logql model.LogqlPlan.
+From Qryn Require Import lib.Strs lib.CivilDate model.Sql model.SqlRender model.Logql model.LogqlPlan model.PromSel.
 Import ListNotations.
 Open Scope string_scope.
 
@@ -55,11 +55,19 @@ Definition global_clause (p : pseudo) (op : mop) (v : string) : expr :=
 Definition kv_clause (s : selector) : expr :=
   And [Eq (Id "key") (StrV (sl_name s)); matcher_clause (Id "val") (sl_op s) (sl_val s)].
 
+(* Pyroscope selectors are Prometheus matchers: a regex value is anchored before it reaches match() *)
+Definition prof_selector_val (s : selector) : selector :=
+  match sl_op s with
+  | MRe | MNre => {| sl_name := sl_name s; sl_op := sl_op s; sl_val := anchor (sl_val s) |}
+  | _ => s
+  end.
+
 (* getMatchers: (globalMatchers, kvMatchers), each in selector order *)
 Fixpoint get_matchers (sels : list selector) : list expr * list expr :=
   match sels with
   | [] => ([], [])
-  | s :: r =>
+  | s0 :: r =>
+    let s := prof_selector_val s0 in
     let '(g, kv) := get_matchers r in
     match pseudo_of (sl_name s) with
     | Some p => (global_clause p (sl_op s) (sl_val s) :: g, kv)
